@@ -12,4 +12,4 @@ ASSUMPTIONS = ['handlers installed for every operation; user handlers return wel
 
 def check(ctx):
     return servefam.check_prop(ctx, "C14", ["GoagModel.Props.C14"], THEOREMS, FACETS, TRUSTED, rule=RULE,
-                               explanation=EXPLANATION, assumptions=ASSUMPTIONS)
+                               explanation=EXPLANATION, assumptions=ASSUMPTIONS, level="other")
